@@ -257,7 +257,7 @@ fn mk_target(name: &str, text: &str, spec: &SetSpec, wd: &Workdir, rep: &mut Rep
     }
 }
 
-fn lits_of_dump_text(text: &str) -> Vec<String> {
+pub fn lits_of_dump_text(text: &str) -> Vec<String> {
     // string literals appearing in the grammar text: raw material for inputs
     let mut out = vec![];
     let b: Vec<char> = text.chars().collect();
